@@ -300,6 +300,10 @@ func verifMonitorList(after string) {
 			verifMonitorHit("list-order", n)
 			return
 		}
+		if mx < mn {
+			verifMonitorHit("list-range-inverted", n)
+			return
+		}
 		lastMax = mx
 	}
 }
